@@ -387,7 +387,25 @@ func NewWorld(onBoot func(n *Node)) *Node {
 		recvs = append(recvs, &PendingTx{Signer: rel, Gas: 2_000_000, Msgs: []sdk.Msg{&channeltypes.MsgRecvPacket{Packet: pkt, ProofCommitment: sentinel, ProofHeight: proofHeight, Signer: sig}}})
 	}
 	n.mustTxs(recvs)
+	// Tokens with longer histories (for C16): remote1_0 gets pair 0's voucher of uusdc (so it can send a
+	// token that is foreign to pair 1), and remote1_1 gets a two-hop voucher that returns over pair 1.
+	far := uint64(GenesisTime.Add(1000 * time.Hour).UnixNano())
+	amt := sdkmath.NewInt(1_000_000_000_000)
+	seqs[0]++
+	d1 := transfertypes.NewFungibleTokenPacketData(DenomUSDC, amt.String(), src.Addr.String(), env.Remote[1][0].Addr.String(), "")
+	n.mustTxs([]*PendingTx{{Signer: src, Gas: 2_000_000, Msgs: []sdk.Msg{transfertypes.NewMsgTransfer("transfer", chanA(0), sdk.NewCoin(DenomUSDC, amt), src.Addr.String(), env.Remote[1][0].Addr.String(), clienttypes.ZeroHeight(), far, "")}}})
+	n.mustTxs([]*PendingTx{{Signer: rel, Gas: 2_000_000, Msgs: []sdk.Msg{&channeltypes.MsgRecvPacket{Packet: channeltypes.NewPacket(d1.GetBytes(), seqs[0], "transfer", chanA(0), "transfer", chanB(0), clienttypes.ZeroHeight(), far), ProofCommitment: sentinel, ProofHeight: proofHeight, Signer: sig}}}})
+	r0 := env.Remote[0][0]
+	seqs[1]++
+	d2 := transfertypes.NewFungibleTokenPacketData("transfer/"+chanB(0)+"/"+DenomUSDC, amt.String(), r0.Addr.String(), env.Remote[1][1].Addr.String(), "")
+	n.mustTxs([]*PendingTx{{Signer: r0, Gas: 2_000_000, Msgs: []sdk.Msg{transfertypes.NewMsgTransfer("transfer", chanA(1), sdk.NewCoin(voucherOnB(0, DenomUSDC), amt), r0.Addr.String(), env.Remote[1][1].Addr.String(), clienttypes.ZeroHeight(), far, "")}}})
+	n.mustTxs([]*PendingTx{{Signer: rel, Gas: 2_000_000, Msgs: []sdk.Msg{&channeltypes.MsgRecvPacket{Packet: channeltypes.NewPacket(d2.GetBytes(), seqs[1], "transfer", chanA(1), "transfer", chanB(1), clienttypes.ZeroHeight(), far), ProofCommitment: sentinel, ProofHeight: proofHeight, Signer: sig}}}})
 	return n
+}
+
+// twoHopOnB1 is the bank denom of the two-hop voucher held by remote1_1.
+func twoHopOnB1() string {
+	return transfertypes.ParseDenomTrace("transfer/" + chanB(1) + "/transfer/" + chanB(0) + "/" + DenomUSDC).IBCDenom()
 }
 
 func decodeResp(r *abci.ExecTxResult, out gogoproto.Message) {
